@@ -400,7 +400,12 @@ class Project(MessageHandler):
         for task in self.tasks:
             if not task.leaf():
                 continue
-            deps = task.get("depends", scIdx) or []
+            task_scenario = task.data[scIdx] if task.data else None
+            if task_scenario is not None and hasattr(task_scenario, "getAllDependencies"):
+                # own dependencies and those of every enclosing container
+                deps = task_scenario.getAllDependencies()
+            else:
+                deps = task.get("depends", scIdx) or []
             for dep in deps:
                 if isinstance(dep, dict):
                     pred = dep.get("task")
@@ -418,8 +423,10 @@ class Project(MessageHandler):
                         # derives END from predecessor's START, so this task is NOT terminal
                         has_onstart_dep.add(task.fullId if hasattr(task, "fullId") else None)
                     else:
-                        # Normal finish-to-start: predecessor has a successor
-                        has_fs_successor.add(pred.fullId)
+                        # Normal finish-to-start: predecessor has a successor; a container
+                        # passes that on to every task below it
+                        for node in pred.all() if hasattr(pred, "all") else [pred]:
+                            has_fs_successor.add(node.fullId)
 
         def propagate_end_to_children(task: Any, container_end: Optional[Any]) -> None:
             """Recursively propagate end constraint down the task tree."""
